@@ -1443,3 +1443,26 @@ Lemma faithful_completion_keeps_referrer :
   option_map t_refby (get (tags (js s)) "tag/a") = Some ["tag/b"] /\
   fst (step demo_parse (js s) (CDel "tag/a")) = Err EReferenced.
 Proof. vm_compute. split; reflexivity. Qed.
+
+(* ---------------------------------------------------------------- the definition of a mark tag denotes its matches *)
+Definition md_ok (m : markdef) : Prop := forall x, In x (md_ids m) <-> In x (md_matches m).
+
+Lemma md_add_one_ok : forall m s, md_ok m -> md_ok (md_add_one m s).
+Proof.
+  intros m s H. unfold md_add_one. destruct (mem_n s (md_matches m)); auto.
+  intros x. simpl. rewrite in_app_iff. simpl. rewrite (H x). tauto.
+Qed.
+
+Lemma md_step_ok : forall m o, md_ok m -> md_ok (md_step m o).
+Proof.
+  intros m o H. destruct o as [l|l]; simpl.
+  - revert m H. induction l as [|s l IH]; intros m H; simpl; auto. apply IH. apply md_add_one_ok. auto.
+  - intros x. simpl. tauto.
+Qed.
+
+Theorem mark_definition_denotes_matches : forall ids ops, md_ok (fold_left md_step ops (md_init ids)).
+Proof.
+  intros ids ops. assert (md_ok (md_init ids)) as H by (intros x; simpl; tauto).
+  revert H. generalize (md_init ids). induction ops as [|o ops IH]; intros m H; simpl; auto.
+  apply IH. apply md_step_ok. auto.
+Qed.
